@@ -8,7 +8,7 @@
     check_lower_to_memory / check_lift_from_memory; it is evaluated by the check on the REAL streams and is
     not yet a theorem (see DESIGN.md, C01 staging). *)
 From Coq Require Import List NArith Arith.
-From WB Require Import Wit.Ty Canon.Spec Abi.Sig Abi.Instr Abi.CastSem Abi.Gen Abi.SigProofs Abi.LayoutProofs Abi.GenDiscipline Abi.GenFlatDiscipline.
+From WB Require Import Wit.Ty Canon.Spec Abi.Sig Abi.Instr Abi.CastSem Abi.Gen Abi.SigProofs Abi.LayoutProofs Abi.GenDiscipline Abi.GenFlatDiscipline Abi.GenFlatLift.
 Import ListNotations.
 
 Theorem C01_flat_types_exact : forall t max,
@@ -81,7 +81,22 @@ Theorem C01_lower_flat_canonical_count : forall canon pw t, pw = 4%N \/ pw = 8%N
   ok_with (lower_flat canon t) gst0 (fun _ s' => length (stack s') = length (Spec.flatten pw t)).
 Proof. exact lower_flat_canonical_count. Qed.
 
+(** Flat form, lifting side: for EVERY well-formed type that fits, given exactly the flattened number of core
+    operands on top of the stack the flat lifting reaches no panic site (underflow in a drain or per-field / per-arm
+    split, flat_types(..).unwrap(), unreachable cast) and replaces them by exactly one operand. *)
+Theorem C01_flat_lifting_consumes_flattened_count : forall canon t,
+  Spec.valid_ty t = true -> length (wflat t) <= 16 ->
+  forall s top st, stack s = top ++ st -> length top = length (wflat t) ->
+  ok_with (lift canon t) s (fun _ s' => exists v, stack s' = v :: st /\ frame s s').
+Proof. exact lift_ok. Qed.
+
+Example C01_flat_discipline_nonvacuous :
+  let t := TRecord [TU8; TOption (TVariant [Some TF32; Some TS64; None; Some TString]); TFixed TU32 3%N] in
+  Spec.valid_ty t = true /\ length (wflat t) <= 16.
+Proof. split; [reflexivity | apply Nat.leb_le; vm_compute; reflexivity]. Qed.
+
 Print Assumptions C01_flat_types_exact.
+Print Assumptions C01_flat_lifting_consumes_flattened_count.
 Print Assumptions C01_flat_lowering_produces_flattened_count.
 Print Assumptions C01_lower_flat_canonical_count.
 Print Assumptions C01_memory_lifting_produces_one_operand.
